@@ -42,7 +42,8 @@ ArrQV == <<"arr", <<T1(<<"*", "?">>, "ident", "v")>>, "f">>
 ArrAny == <<"arr", <<T1(<< >>, "dots", "")>>, "s">>
 LeafCatalogue ==
   [int |-> <<"int">>, str |-> <<"str">>, tup2 |-> <<"tup2">>, any |-> <<"any">>,
-   uis |-> <<"union", <<"int">>, <<"str">>>>, arrA |-> ArrA, arrV |-> ArrV, arrBV |-> ArrBV, arrAi |-> ArrAi,
+   uis |-> <<"union", <<"int">>, <<"str">>>>, uSpt |-> <<"union", <<"str">>, <<"pt", <<"int">>>>>>,
+   uptS |-> <<"union", <<"pt", <<"int">>>>, <<"str">>>>, arrA |-> ArrA, arrV |-> ArrV, arrBV |-> ArrBV, arrAi |-> ArrAi,
    uAi |-> <<"union", ArrA, <<"int">>>>, uAV |-> <<"union", ArrAi, ArrV>>, uAshV |-> <<"union", ArrA, ArrV>>, tupA |-> <<"tupA", ArrA>>,
    utA |-> <<"union", <<"tupA", ArrA>>, ArrV>>,
    ptA |-> <<"pt", ArrA>>, ptI |-> <<"pt", <<"int">>>>, ptptA |-> <<"pt", <<"pt", ArrA>>>>,
